@@ -1,4 +1,4 @@
-import JunoModel.C17.ProofsMore
+import JunoModel.C17.ProofsLife
 /-!
 C17 — the recorded L1 head is always a finalised, still-canonical L1 state commit.
 Property theorems (statements only; the proofs are in `Proofs*.lean`).
@@ -67,7 +67,10 @@ Full-strength statement (the property as written), NOT true of the code at the p
       (∀ e, IsTop F (live tr) e → (run false (State.init h0) (tr ++ [.tick F])).head = some e.2.toHead)
 
 It needs the delivery-order hypothesis `InOrder` (below); `head_spec_needs_delivery_order` is the
-counterexample without it. For the repaired variant see `head_spec_guarded`.
+counterexample without it. The defect was repaired in /repo by commit 5084dce: the code as it is
+NOW is `g = true`, for which `head_spec_guarded`, `head_spec_stored`, `head_spec_life` and
+`l2_monotone_guarded` are the full-strength statements; `head_spec_partial` /
+`l2_monotone_partial` document the code before the repair.
 -/
 
 /-- After every completed poll the stored head is the commit of the delivered, not removed event
@@ -134,6 +137,25 @@ theorem head_spec_guarded (tr : List Ev) (F : Nat)
   · refine Or.inr ⟨e, ((hc e).mp he).1, ((hc e).mp he).2, ?_, hh⟩
     intro c hc1 hc2
     exact hmax c ((hc c).mpr ⟨hc1, hc2⟩)
+
+/-- Start-up with a head stored by an earlier life of the node (`h0`, the commit of an event of
+L1 block `b0` of the same canonical chain — `StoredOrdered`; the buffer starts empty): after every
+poll the stored head is still `h0` exactly when no delivered, not removed, finalised event lies
+above `b0`; otherwise it is the commit of an event of the highest such block, which is at or above
+`b0`. So a stored head NEWER than everything the catch-up scan or the subscription delivers is
+kept, an OLDER one is replaced, and it never moves back. No delivery-order hypothesis. -/
+theorem head_spec_stored (h0 : Head) (b0 : Nat) (tr : List Ev) (F : Nat)
+    (hF : FinMono (tr ++ [.tick F])) (hU : NoUnfinalise (tr ++ [.tick F]))
+    (hL : L2Ordered (tr ++ [.tick F])) (hS : StoredOrdered h0 b0 (tr ++ [.tick F])) :
+    ((∀ e ∈ live tr, e.2.l1 ≤ F → e.2.l1 ≤ b0) ∧
+      (run true (State.init (some h0)) (tr ++ [.tick F])).head = some h0) ∨
+    (∃ e ∈ live tr, e.2.l1 ≤ F ∧ (∀ c ∈ live tr, c.2.l1 ≤ F → c.2.l1 ≤ e.2.l1) ∧ b0 ≤ e.2.l1 ∧
+      (run true (State.init (some h0)) (tr ++ [.tick F])).head = some e.2.toHead) := by
+  have hc := fun e => consumed_after_tick (tr := tr) (F := F) hF hU e
+  rcases guardHeadS h0 b0 (tr ++ [.tick F]) hF hU hL hS with ⟨hall, hh⟩ | ⟨e, he, hmax, hb, hh⟩
+  · exact Or.inl ⟨fun e he hle => hall e ((hc e).mpr ⟨he, hle⟩), hh⟩
+  · exact Or.inr ⟨e, ((hc e).mp he).1, ((hc e).mp he).2,
+      fun c h1 h2 => hmax c ((hc c).mpr ⟨h1, h2⟩), hb, hh⟩
 
 /-! ### the defect (lead L11) as a proved negation with a concrete witness -/
 
@@ -321,7 +343,87 @@ theorem catchup_retry (g : Bool) (h : Option Head) (hist : List SU)
   | none => simp
   | some u => by_cases hs : skipCandidate g h u = true <;> simp [hs]
 
+/-! ## one whole life of the client: chain-id gate, catch-up, event loop -/
+
+/-- Unless the L1 node's chain id was verified, start-up touches neither the buffer nor the stored
+head (`Run`: mismatch is fatal, cancellation while retrying; `CatchUpL1Head`: any failure). -/
+theorem chainid_gate_writes_nothing (g : Bool) (s : State) (cfg : Startup) (oneshot : Bool)
+    (h : (startUp g s cfg oneshot).2 ≠ .proceed) : (startUp g s cfg oneshot).1 = s :=
+  startUp_gate g s cfg oneshot h
+
+theorem life_blocked (g : Bool) (s : State) (cfg : Startup) (tr : List Ev)
+    (hg : ensureChainID cfg.chainId ≠ .proceed) : runLife g s cfg tr = s :=
+  runLife_blocked g s cfg tr hg
+
+/-- A whole life under `Run` is ONE trace of the event loop: the logs applied by the catch-up scan
+(and its poll, if it completed) followed by everything received afterwards; if a height could not
+be read the scan is skipped. -/
+theorem life_is_trace (g : Bool) (s : State) (cfg : Startup) (tr : List Ev) (la f1 : Nat)
+    (hg : ensureChainID cfg.chainId = .proceed) (hla : cfg.latest = some la)
+    (hf : cfg.fin₁ = some f1) :
+    runLife g s cfg tr = run g s (startUpTrace s cfg la f1 ++ tr) :=
+  runLife_trace g s cfg tr la f1 hg hla hf
+
+theorem life_skips_catchup (g : Bool) (s : State) (cfg : Startup) (tr : List Ev)
+    (hg : ensureChainID cfg.chainId = .proceed) (h : cfg.latest = none ∨ cfg.fin₁ = none) :
+    runLife g s cfg tr = run g s tr :=
+  runLife_skip g s cfg tr hg h
+
+/-- `head_spec` for the combined start-up + run trace (fresh database): whatever the chunk size,
+wherever a log query failed, whatever is delivered afterwards (duplicates of scanned logs, late
+logs, reorgs) — after every poll of the life the stored head is the commit of an event of the
+highest L1 block at or below the reported finalised height among ALL logs the life has received,
+scanned or subscribed, that were not reported removed. -/
+theorem head_spec_life (cfg : Startup) (tr : List Ev) (la f1 F : Nat)
+    (hg : ensureChainID cfg.chainId = .proceed) (hla : cfg.latest = some la)
+    (hf : cfg.fin₁ = some f1)
+    (hF : FinMono (startUpTrace (State.init none) cfg la f1 ++ tr ++ [.tick F]))
+    (hU : NoUnfinalise (startUpTrace (State.init none) cfg la f1 ++ tr ++ [.tick F]))
+    (hL : L2Ordered (startUpTrace (State.init none) cfg la f1 ++ tr ++ [.tick F])) :
+    ((∀ e ∈ live (startUpTrace (State.init none) cfg la f1 ++ tr), ¬ e.2.l1 ≤ F) ∧
+      (runLife true (State.init none) cfg (tr ++ [.tick F])).head = none) ∨
+    (∃ e ∈ live (startUpTrace (State.init none) cfg la f1 ++ tr), e.2.l1 ≤ F ∧
+      (∀ c ∈ live (startUpTrace (State.init none) cfg la f1 ++ tr), c.2.l1 ≤ F → c.2.l1 ≤ e.2.l1) ∧
+      (runLife true (State.init none) cfg (tr ++ [.tick F])).head = some e.2.toHead) := by
+  have e := runLife_trace true (State.init none) cfg (tr ++ [Ev.tick F]) la f1 hg hla hf
+  rw [e, ← List.append_assoc]
+  exact head_spec_guarded _ F hF hU hL
+
+/-- The provider hypotheses are not assumptions about the catch-up part of a life: the trace the
+scan amounts to satisfies them by itself whenever the node's log history is what `eth_getLogs` of
+one canonical chain returns (no removed logs, a later L1 block commits a later Starknet block). -/
+theorem startup_trace_wellbehaved (s : State) (cfg : Startup) (la f1 : Nat)
+    (hn : ∀ u ∈ cfg.hist, u.removed = false)
+    (ho : ∀ x ∈ cfg.hist, ∀ y ∈ cfg.hist, x.l1 < y.l1 → x.l2 < y.l2) :
+    FinMono (startUpTrace s cfg la f1) ∧ NoUnfinalise (startUpTrace s cfg la f1) ∧
+      L2Ordered (startUpTrace s cfg la f1) :=
+  startUpTrace_wellbehaved s cfg la f1 hn ho
+
+/-! ## the L1-head feed -/
+
+/-- A subscriber of the L1-head feed (one-slot buffer, a value is skipped when the slot is full)
+receives, in order, a subsequence of the heads that were set — whatever the interleaving of sends
+and receives. (It may miss heads, including the latest one, if it is slow; it never sees a head
+that was not set, nor an older head after a newer one.) -/
+theorem feed_in_order (ops : List FeedOp) :
+    (subRun {} ops).received.Sublist (sentOf ops) := by
+  have h := feed_invariant ops {} [] (by simp)
+  simp only [List.nil_append] at h
+  exact List.Sublist.trans (List.sublist_append_left _ _) h
+
 /-! ## non-vacuity: the hypotheses are satisfiable by non-trivial traces -/
+
+/-- Restart with the head of L1 block 3 stored; a log of block 2 (older) and one of block 6 arrive. -/
+example : (run true (State.init (some ⟨7, 0x70, 0x1070⟩))
+    [.upd ⟨6, 0x60, 0x1060, 2, false⟩, .tick 4, .upd ⟨8, 0x81, 0x1081, 6, false⟩, .tick 4]).head =
+    some ⟨7, 0x70, 0x1070⟩ := by decide
+example : (run true (State.init (some ⟨7, 0x70, 0x1070⟩))
+    [.upd ⟨6, 0x60, 0x1060, 2, false⟩, .tick 4, .upd ⟨8, 0x81, 0x1081, 6, false⟩, .tick 6]).head =
+    some ⟨8, 0x81, 0x1081⟩ := by decide
+example : ensureChainID [.err, .err, .ok] = .proceed ∧ ensureChainID [.err, .mismatch] = .fatal ∧
+    checkChainIDOnce [.err, .ok] = .fatal := by decide
+example : (subRun {} [.send ⟨1, 1, 1⟩, .send ⟨2, 2, 2⟩, .recv, .send ⟨3, 3, 3⟩, .recv]).received =
+    [⟨1, 1, 1⟩, ⟨3, 3, 3⟩] := by decide
 
 /-- An in-order, well-behaved trace with a reorg: block 5 event, reorged away (removal notice),
 replaced by a block 6 event, finalised at 7. -/
